@@ -77,6 +77,8 @@ def _one(args):
     os.chdir(scratch)
     rng = random.Random(seed * 1000003 + idx)
     spec = travlib.gen_spec(rng, profile)
+    if rng.random() < 0.3:
+        spec["lazy"] = True      # flat leaves expanded on demand during the traversal (monitors only, see DESIGN.md 11.2)
     return _run_spec(spec, monitors, (seed, idx, profile))
 
 
@@ -134,6 +136,7 @@ def judge(ctx, results, monitors, label="trav"):
         ctx.count("scope=" + ("full" if len(spec["cfg"].get("pool_scope", "").split()) == 4 else "narrowed"))
         ctx.count("retries" if int(spec["cfg"].get("max_tries", 1) or 1) > 1 else "no-retries")
         ctx.count("initial-pool" if spec.get("pool") else "empty-pool")
+        ctx.count("lazy-expansion" if spec.get("lazy") else "pre-parsed")
         for k in ("sleep", "door"):
             if r["kinds"].get(k):
                 ctx.count(f"runs-with-{k}")
